@@ -27,7 +27,7 @@ import ast
 from ..model import AnchorMissing, CannotAnalyse, walk_no_nested
 from ..cfg import CFG, fmt_path
 from ..dataflow import names_in, local_defs
-from .common import calls_to, site, key, stmt_of, enclosing, kwarg, all_attr_stores, module_list_literal, attr_stores
+from .common import calls_to, site, key, stmt_of, enclosing, kwarg, all_attr_stores, module_list_literal, attr_stores, holds_at, resolved
 
 RQ = 'gnpy.topology.request'
 EXPLANATION = (
@@ -231,16 +231,30 @@ def r5_helpers(ctx):
     trues = [r for r in rets if isinstance(r.value, ast.Constant) and r.value.value is True]
     a, b = f.params
     lp = [n for n in walk_no_nested(f.node) if isinstance(n, ast.For)]
-    ok = len(lp) == 1 and ast.unparse(lp[0].iter) == a and len(falses) == 2 and len(trues) == 1 and \
-        enclosing(trues[0], ast.For) is None
+    ok = len(lp) == 1 and ast.unparse(lp[0].iter) == a and len(falses) >= 1 and len(trues) == 1 and \
+        enclosing(trues[0], ast.For) is None and all(enclosing(r, ast.For) is lp[0] for r in falses)
     if ok:
+        # the position tracker advances only where the element is present and not before the previous one; everything else in
+        # the loop returns False (guard clauses or nesting: read off the structure)
         v = lp[0].target.id
-        tests = [ast.unparse(n.test) for n in walk_no_nested(lp[0]) if isinstance(n, ast.If)]
-        js = [n.targets[0].id for n in walk_no_nested(lp[0]) if isinstance(n, ast.Assign) and isinstance(n.targets[0], ast.Name) and
-              ast.unparse(n.value) == f'{b}.index({v})']
-        j = js[0] if len(set(js)) == 1 else None
-        ok = j is not None and f'{v} in {b}' in tests and any(t.replace(' ', '') in (f'{b}.index({v})>={j}', f'{j}<={b}.index({v})') for t in tests) and \
-            any(isinstance(n, ast.Assign) and ast.unparse(n) == f'{j} = 0' for n in f.node.body)
+        ldefs = local_defs(f.node)
+        adv = [n for n in walk_no_nested(lp[0]) if isinstance(n, ast.Assign) and isinstance(n.targets[0], ast.Name) and
+               ast.unparse(resolved(ldefs, n.value)) == f'{b}.index({v})' and enclosing(n, ast.For) is lp[0] and
+               ast.unparse(n.value) != n.targets[0].id]
+        adv = [n for n in adv if any(isinstance(x, ast.Assign) and ast.unparse(x) == f'{n.targets[0].id} = 0' for x in f.node.body)]
+        ok = len(adv) == 1
+        if ok:
+            j = adv[0].targets[0].id
+            idx = {f'{b}.index({v})'} | ({ast.unparse(adv[0].value)} if isinstance(adv[0].value, ast.Name) else set())
+            held = {c.replace(' ', '') for c in holds_at(adv[0])}
+            order = {x.replace(' ', '') for i_ in idx for x in (f'{j} <= {i_}', f'not {i_} < {j}')}
+            ok = f'{v} in {b}'.replace(' ', '') in held and bool(held & order)
+            # every other way through the loop body ends in `return False`: the body is guards + the advance
+            others = [n for n in lp[0].body if n is not adv[0] and not (isinstance(n, ast.If) and not n.orelse and len(n.body) == 1 and n.body[0] in falses)
+                      and not (isinstance(n, ast.Assign) and isinstance(n.targets[0], ast.Name) and n.targets[0].id in
+                               {ast.unparse(adv[0].value)})]
+            nested = enclosing(adv[0], ast.If)
+            ok = ok and (not others or (nested is not None and all(n is nested or isinstance(n, ast.Assign) for n in lp[0].body)))
     ctx.check('R5.helpers', site(f), bool(ok), key(f, 'ispart'),
               'ispart does not reject (False) a missing element or an element met before the previous one, and accept (True) only '
               'after all elements were checked')
